@@ -93,7 +93,7 @@ PROPS = {
         assumptions=["position() has not wrapped around 2^64", "chunk sizes >= 1",
                      "source obeys the std::io::Read contract (lying sources are C14's subject)"]),
     "C14": dict(
-        module="Flussab.Props.C14", modules=["Flussab.Props.C14", "Flussab.Props.TieReader"], engines=[("reader", 3000, 100000, "lies"), ("writer", 300, 4000, ""), ("reader", 470, 1050, "scale+lies"), ("writer", 480, 630, "scale")], release=True,
+        module="Flussab.Props.C14", modules=["Flussab.Props.C14", "Flussab.Props.TieReader", "Flussab.Props.TieWriter"], engines=[("reader", 3000, 100000, "lies"), ("writer", 300, 4000, ""), ("reader", 470, 1050, "scale+lies"), ("writer", 480, 630, "scale")], release=True,
         claim="The index discipline every unsafe block of the reader relies on (pos_in_buf + valid_len <= buf.len, "
               "so buf()/get_unchecked/8-byte loads stay inside the buffer) is the invariant Reader.Ok, proved to "
               "hold after every call of the safe API for EVERY source - lying Ok(n) > slice included - and across "
@@ -128,8 +128,8 @@ PROPS = {
              "Trusted: Lean kernel, harness.",
         assumptions=["chunk >= 1"]),
     "C13": dict(
-        module="Flussab.Props.C13", engines=[("scan", 30000, 1500000, ""), ("scan", 565, 1430, "scale"), ("scan", 8000, 200000, "pad")], release=True,
-        bv_decide_theorems=["fast_path_exact", "multi_eq_simple", "signed_multi_eq_simple"],
+        module="Flussab.Props.C13", modules=["Flussab.Props.C13", "Flussab.Props.TieText"], engines=[("scan", 30000, 1500000, ""), ("scan", 565, 1430, "scale"), ("scan", 8000, 200000, "pad")], release=True,
+        bv_decide_theorems=["fast_path_exact", "multi_eq_simple", "signed_multi_eq_simple", "signed_ascii_digits_multi_tied"],
         claim="Theorems generic in the integer type (signedness x width, so all 12 Rust types): ascii_digits and "
               "signed_ascii_digits return the offset past the longest digit run and the exact value iff "
               "representable, None otherwise (digits_exact, signed_digits_exact, via the sticky-flag loop invariant "
@@ -145,7 +145,7 @@ PROPS = {
         trusted=["tools/gen_swar.py (Rust -> BitVec translator)", "bv_decide: cadical + verified LRAT checker run natively"],
         assumptions=["usize/isize are 64 bit"]),
     "C16": dict(
-        module="Flussab.Props.C16", engines=[("scan", 0, 0, "exhaustive"), ("scan", 20000, 400000, ""), ("scan", 565, 1430, "scale"), ("scan", 8000, 200000, "follow")], release=True,
+        module="Flussab.Props.C16", modules=["Flussab.Props.C16", "Flussab.Props.TieText"], bv_decide_theorems=["signed_ascii_digits_multi_tied"], engines=[("scan", 0, 0, "exhaustive"), ("scan", 20000, 400000, ""), ("scan", 565, 1430, "scale"), ("scan", 8000, 200000, "follow")], release=True,
         exhaustive=False,
         claim="Closed-form theorems for all inputs, offsets and patterns (no length bound): tabs_or_spaces, newline "
               "(LF, CRLF, lone CR, CR at end), next_newline, fixed (empty / cut / longer-than-input pattern) return "
@@ -179,7 +179,7 @@ PROPS = {
              "under trim=true is not an error (code, model and oracle agree).",
         assumptions=["literal codes fit the literal type"]),
     "C11": dict(
-        module="Flussab.Props.C11", engines=[("writer", 500, 8000, ""), ("writer", 480, 630, "scale")], release=True,
+        module="Flussab.Props.C11", modules=["Flussab.Props.C11", "Flussab.Props.TieWriter"], engines=[("writer", 500, 8000, ""), ("writer", 480, 630, "scale")], release=True,
         claim="DeferredWriter (fast path, cold path with split/fill/flush/write-through, flush, check_io_error, Drop "
               "with the panicked flag, buf_write_ptr+advance_unchecked, write::text::ascii_digits with itoap MAX_LEN) "
               "is modelled over a sink with arbitrary schedules and std's write_all loop. Theorems for all histories: "
@@ -196,10 +196,10 @@ PROPS = {
              "they are covered by C14's length invariant only.",
         assumptions=["the sink obeys the Write contract (accepts at most the slice length)"]),
     "C01": dict(
-        module="Flussab.Props.C01", modules=["Flussab.Props.C01", "Flussab.Props.C01Btor2", "Flussab.Props.TieReader"],
+        module="Flussab.Props.C01", modules=["Flussab.Props.C01", "Flussab.Props.C01Btor2", "Flussab.Props.TieReader", "Flussab.Props.TieText"],
         engines=[("aiger", 3000, 150000, "rt+layout+mutate+arbitrary+utf8+huge"), ("cnf", 4000, 200000, "mix"), ("btor2", 3000, 150000, "rt+layout+kinds+mutate+arbitrary+kw"), ("reader", 1500, 50000, ""), ("btor2", 160, 640, "scale"), ("cnf", 270, 2600, "scale"), ("reader", 470, 1050, "scale"), ("aiger", 40, 300, "scale"), ("cnf", 900, 2000, "dict"), ("btor2", 900, 2000, "dict"), ("aiger", 900, 2000, "dict")], release=True,
         audit_observables=True,
-        bv_decide_theorems=["multi_scanners_buffer_independent", "btor2_lowercase_kernel", "btor2_lowercase_kernel_no_panic",
+        bv_decide_theorems=["signed_ascii_digits_multi_tied", "multi_scanners_buffer_independent", "btor2_lowercase_kernel", "btor2_lowercase_kernel_no_panic",
                             "btor2_lowercase_eq_spec", "btor2_lowercase_buffer_independent", "btor2_lowercase_eq_spec_const"],
         claim="Where byte arrival is visible it is a theorem: any two DeferredReaders over the same stream - "
               "arbitrary different schedules (short reads, Interrupted), chunk sizes, buffer layouts - answer "
